@@ -82,6 +82,12 @@ CHECKS = {
     "C36": ("mc-store", MC, "explicit-state BFS (E3) over real timelock/store instructions in the in-process runtime against a reference protocol",
             "All interleavings to the stated depth of create (valid/invalid shapes), approve, cancel, execute, increase_delay by entitled and non-entitled signers, role revocation/re-grant and clock advances around the delay, executed through gmsol_timelock::entry with CPI role checks into gmsol_store::entry; outcome of every instruction compared with the protocol; executed instruction compared bit for bit with the buffered one via a recording probe program.",
             "svm-lite runtime trusted; timelock config account fabricated", "§5 C36"),
+    "C42": ("mc-sdk", E1, "exhaustive enumeration (E1) of all small weighted market graphs against brute-force path enumeration",
+            "Every weighted graph of the listed shapes (2-4 markets over 3-5 tokens, each direction unswappable or one of five ln-rates) x step limits 1-3 x both search modes x all (source, target): recommended paths validated edge by edge, reported rate recomputed from the path, optimality (absent negative cycles) compared with brute force; a completeness guard forbids returning nothing when the globally cheapest path fits the limit.",
+            "graphs built through the verif_from_edges hook; rate estimation from market state not covered", "§5 C42"),
+    "C43": ("mc-sdk", E1, "exhaustive product enumeration (E1) of boundary integers x decimals and crafted Decimals against exact big-integer rescaling",
+            "All eight conversion functions over boundary u64/u128/i128 values x decimals 0..60 and beyond, and Decimal->integer over crafted (mantissa, scale, decimals): supported inputs round-trip exactly, other forward conversions only truncate, Decimal->integer is exact or an error, nothing panics.",
+            "alphabets only; rounding of user decimals with excess fraction digits is by design and only counted", "§5 C43"),
 }
 
 NOT_YET = "no check built yet in this round (planned in DESIGN.md); not claimed"
